@@ -23,9 +23,12 @@ def groups_as_ids(groups, ids):
     return [sorted(ids[e] for e in g) for g in groups]
 
 
-def sparse_scheme(rng):
-    """schemes under which sparse / blocky datasets have many components and cost ties; B5 != T5 often"""
-    fam = rng.choice(["preset", "preset", "extended", "induced", "grid", "b5t5", "zeroheavy"])
+def sparse_scheme(rng, dataset_family=None):
+    """schemes under which sparse / blocky datasets have many components and cost ties; B5 != T5 often;
+    cyclic datasets are paired with cheap-tie schemes half of the time (ties inside cycles become optimal)"""
+    if dataset_family == "cyclic" and rng.random() < 0.5:
+        return lib.gen_scheme(rng, family="cheap_ties")
+    fam = rng.choice(["preset", "preset", "extended", "induced", "grid", "b5t5", "zeroheavy", "cheap_ties", "cheap_ties"])
     if fam == "extended":
         b, t, s = lib.PRESETS["extended"]
         return {"b": list(b), "t": list(t), "scale": s, "family": "extended"}
